@@ -5,7 +5,7 @@ import signal
 import sys
 import traceback
 
-from .report import Report
+from .report import Report, ViolationStorm
 
 _MOD = None
 _TIER = None
@@ -60,6 +60,21 @@ def _run(shard):
             rep.viol_counts = {k + "/under-python-O": v for k, v in rep.viol_counts.items()}
         else:
             rep = _MOD.run_shard(shard, _TIER, _SEED)
+        return ("ok", shard, rep.compact())
+    except ViolationStorm as e:
+        return ("ok", shard, e.report.compact())
+    except MemoryError as e:
+        # the shard ran into the address-space limit (runner.bootstrap): the library produced or consumed data of absurd size - a verdict, reported
+        # with the place where memory ran out; nothing of the kind happens on the unchanged tree (the limit is several times what the checks need)
+        import gc
+
+        gc.collect()
+        tb = traceback.extract_tb(e.__traceback__)
+        where = next((f"{os.path.basename(fr.filename)}:{fr.lineno} in {fr.name}" for fr in reversed(tb) if "/pycomm3/" in fr.filename), None) or (f"{os.path.basename(tb[-1].filename)}:{tb[-1].lineno} in {tb[-1].name}" if tb else "?")
+        rep = Report()
+        rep.case(("memory", repr(shard)), outcome="memory-exhausted")
+        rep.violation("resource/memory-exhausted", f"shard {shard!r}: a value or buffer of absurd size made the process hit its memory limit (at {where}); the library call neither returned a sane result nor raised a library exception",
+                      {"kind": "memory", "shard": list(shard) if isinstance(shard, tuple) else shard})
         return ("ok", shard, rep.compact())
     except BaseException as e:  # harness failure, reported as broken
         return ("err", shard, "".join(traceback.format_exception(type(e), e, e.__traceback__)))
